@@ -10,6 +10,7 @@ package main
 // both directory kinds and must leave the directory valid.
 
 import (
+	"context"
 	"encoding/hex"
 	"encoding/json"
 	"errors"
@@ -133,6 +134,16 @@ func validateImpl(kind, work string, fs []c06File, sum []byte, withSum bool) (ou
 		}
 	}()
 	err = migrate.Validate(d)
+	// the executor's own gate (Executor.Pending validates the directory first) takes the same decision
+	if ex, xerr := migrate.NewExecutor(c06Drv{}, d, migrate.NopRevisionReadWriter{}); xerr == nil {
+		_, perr := ex.Pending(context.Background())
+		sumErr := func(e error) bool {
+			return e != nil && (errors.Is(e, migrate.ErrChecksumMismatch) || errors.Is(e, migrate.ErrChecksumFormat) || errors.Is(e, migrate.ErrChecksumNotFound))
+		}
+		if sumErr(err) != sumErr(perr) {
+			return c06Out{Res: fmt.Sprintf("executor-gate-differs: Validate=%v Executor.Pending=%v", err, perr)}
+		}
+	}
 	var ce *migrate.ChecksumError
 	switch {
 	case err == nil:
@@ -148,6 +159,11 @@ func validateImpl(kind, work string, fs []c06File, sum []byte, withSum bool) (ou
 	}
 	return c06Out{Res: "other:" + err.Error()}
 }
+
+// c06Drv: a driver for an executor that never gets to execute anything.
+type c06Drv struct{ migrate.Driver }
+
+func (c06Drv) CheckClean(context.Context, *migrate.TableIdent) error { return nil }
 
 var ignoreDirective = "-- atlas:sum ignore\n"
 
@@ -575,6 +591,10 @@ func runC06(e *Env) error {
 		impl := validateImpl(c.Kind, work, c.Dir, sum, !c.NoSum)
 		if strings.HasPrefix(impl.Res, "harness:") {
 			e.Res.Tag("unusable-on-" + c.Kind)
+			return
+		}
+		if strings.HasPrefix(impl.Res, "executor-gate-differs") {
+			e.Res.Violate("failing-input", "executor-gate-differs", fmt.Sprintf("%s directory %v (edit %s): %s", c.Kind, namesOf(c.Dir), c.Edit, impl.Res), "Props.C06.validate_detects (Executor.Pending)", map[string]any{"case": c})
 			return
 		}
 		req := map[string]any{"op": "hash.validate", "files": hexFiles(c.Dir)}
